@@ -191,8 +191,9 @@ R("json-final-newline",
 
 # compose path normalised; error text reworded but still naming the location
 R("compose-path-normalised",
-  (CO, "        self._composeinfo = None\n        self._images = None", "        self.compose_path = os.path.normpath(self.compose_path) if \"://\" not in self.compose_path else self.compose_path\n        self._composeinfo = None\n        self._images = None"),
-  (CO, "        raise RuntimeError('Failed to load metadata from %s' % self.compose_path)", "        raise RuntimeError('No metadata file (%s) under %s' % (', '.join(paths), self.compose_path))"))
+  # (corrected in round 9: normalising the stored path itself is NOT behaviour-preserving - '<symlink>/..' is collapsed
+  # textually, cf. seeded C20-Q; only the message is normalised now)
+  (CO, "        raise RuntimeError('Failed to load metadata from %s' % self.compose_path)", "        raise RuntimeError('No metadata file (%s) under %s (%s)' % (', '.join(paths), self.compose_path, os.path.normpath(self.compose_path)))"))
 
 # discinfo and treeinfo end with a newline; INI written without spaces around '='
 R("ini-no-spaces-discinfo-newline",
